@@ -209,6 +209,8 @@ def check(ctx, report):
     name_value_composers(ctx, report)
     component_matching(ctx, report)
     repeatable_separators(ctx, report)
+    header_line_spellings(ctx, report)
+    spf_network_composer(ctx, report)
     report.floor('C18.R1', 24, 'named components')
 
 
@@ -492,3 +494,112 @@ def repeatable_separators(ctx, report, rule='C18.R5'):
                                'the run of %r separators is bounded (max_length=%s): an empty list element at this position is rejected' % (n.args[0].value, ast.unparse(mx)))
     if n_sites < 1:
         report.error('%s: no list separator site found (anchor moved)' % rule)
+
+
+def header_line_spellings(ctx, report, rule='C18.R6'):
+    """the two header line parsers (HttpHeaderFieldParsedBase for understood fields, HttpHeaderFieldUnparsed for the rest)
+    evaluated over the ParserText model (sa/textmodel.py) on the spellings RFC 9110 5.1 / 5.5 / 5.6.3 declare equivalent:
+    any letter case of the name, zero or more SP after the colon.  Both must accept every spelling, yield the same value
+    text and stop before the CRLF - otherwise a header block parses differently depending on whether the field is
+    understood in detail"""
+    from ..miniexec import Evaluator, Raised, Unsupported, class_call_hook
+    from ..textmodel import TextParser
+    model = ctx.model
+    report.rule(rule, 'header lines: name case and the optional whitespace after the colon do not matter, for understood and other fields alike')
+    parsed = model.try_cls('HttpHeaderFieldSTS')
+    unparsed = model.try_cls('HttpHeaderFieldUnparsed')
+    if parsed is None or unparsed is None:
+        report.error('%s: header field classes vanished' % rule)
+        return
+    name = 'Strict-Transport-Security'
+    spellings = [(name + ':' + ws + 'max-age=1') for ws in ('', ' ', '   ')] + [name.lower() + ': max-age=1', name.upper() + ':max-age=1']
+
+    def run(c, line):
+        f = c.resolve('_parse')
+        report.touch(f)
+        box = {}
+
+        def extra(n, ev):
+            d = ast.unparse(n.func)
+            if d == 'ParserText':
+                return TextParser(ev.ev(n.args[0]))
+            if d == 'six.ensure_binary':
+                v = ev.ev(n.args[0])
+                return v.encode('ascii') if isinstance(v, str) else bytes(v)
+            if d.endswith('.parse_exact_size'):
+                box['value'] = bytes(ev.ev(n.args[0])).decode('ascii')
+                return ('value', box['value'])
+            if d == 'cls' and 'self' not in ev.env:
+                args = [ev.ev(a) for a in n.args]
+                if len(args) == 2:
+                    box['value'] = args[1]
+                return ('object', tuple(args))
+            if d.endswith('.normalized_name') or d.endswith('.code'):
+                return NotImplemented
+            return NotImplemented
+
+        def names(nm):
+            if nm.endswith('.value.code') or nm.endswith('get_header_field_name().value.code'):
+                return name.lower()
+            raise Unsupported('free name %s' % nm)
+        hook = class_call_hook(c, extra, model)
+        # canonical name of the understood field: a constant of the data table, supplied by the rule
+        ev = Evaluator({'parsable': (line + '\r\nNext: x\r\n').encode('ascii')}, lambda n, e: (name.lower() if ast.unparse(n.func).endswith('get_canonical_name') else hook(n, e)),
+                       hook.name_hook_for(c.module, names))
+        got = ev.function(f.node)
+        return box.get('value'), (got[1] if isinstance(got, tuple) and len(got) == 2 else None)
+    try:
+        for line in spellings:
+            for c in (parsed, unparsed):
+                report.count(rule)
+                try:
+                    value, consumed = run(c, line)
+                except Raised as e:
+                    report.add(rule, '%s@spelling[%s]' % (c.resolve('_parse').construct, 'no-space' if ':max' in line else ('spaces' if ':  ' in line else 'case')),
+                               'the line %r is refused (%s): %s parser and the other header line parser disagree on an equivalent spelling' % (line, e.what[:40], c.name))
+                    continue
+                if value != 'max-age=1' or consumed != len(line):
+                    report.add(rule, '%s@spelling[%s]' % (c.resolve('_parse').construct, 'no-space' if ':max' in line else ('spaces' if ':  ' in line else 'case')),
+                               'the line %r yields the value %r and consumes %s of %d bytes; expected the value %r' % (line, value, consumed, len(line), 'max-age=1'))
+    except Unsupported as e:
+        report.add(rule, parsed.resolve('_parse').construct + '@tabulation', 'the header line parsers left the subset the tabulation understands: %s' % e)
+
+
+def spf_network_composer(ctx, report, rule='C18.R7'):
+    """DnsRecordTxtValueSpfDirectiveBase._compose_ip_network evaluated for IPv4 and IPv6 networks: the prefix length is
+    omitted only when it is the address family's maximum (RFC 7208 5.6: a missing length means /32 resp. /128)"""
+    from ..miniexec import Evaluator, Native, Obj, Raised, Unsupported
+    report.rule(rule, 'SPF ip4 / ip6: the prefix length is omitted only when it is the maximum of the address family')
+    c = ctx.model.try_cls('DnsRecordTxtValueSpfDirectiveBase')
+    f = c.methods.get('_compose_ip_network') if c is not None else None
+    if f is None:
+        report.error('%s: _compose_ip_network vanished' % rule)
+        return
+    report.touch(f)
+
+    class Composer(Native):
+        def __init__(self):
+            self.text = ''
+
+        def compose_string(self, v):
+            self.text += v
+
+        def compose_separator(self, v):
+            self.text += v
+
+        def compose_numeric(self, v):
+            self.text += str(v)
+    params = [a.arg for a in f.node.args.args if a.arg != 'cls']
+    try:
+        for addr, plen, mx in (('192.0.2.0', 24, 32), ('192.0.2.1', 32, 32), ('10.0.0.0', 8, 32), ('2001:db8::', 32, 128), ('2001:db8::1', 128, 128),
+                               ('2001:db8::', 64, 128), ('::', 0, 128), ('0.0.0.0', 0, 32)):
+            report.count(rule)
+            comp = Composer()
+            net = Obj(network_address=addr, prefixlen=plen, max_prefixlen=mx)
+            Evaluator(dict(zip(params, [comp, net])), None, lambda name: str if name == 'str' else (_ for _ in ()).throw(Unsupported('free name ' + name))).function(f.node)
+            want = ':' + addr + ('' if plen == mx else '/%d' % plen)
+            if comp.text != want:
+                report.add(rule, f.construct + '@prefix[%s]' % ('ip6' if ':' in addr else 'ip4'),
+                           'the network %s/%d is composed as %r, expected %r (an omitted length means /%d)' % (addr, plen, comp.text, want, mx))
+    except (Unsupported, Raised) as e:
+        report.add(rule, f.construct + '@tabulation', '_compose_ip_network left the subset the tabulation understands: %s' % e)
